@@ -124,6 +124,11 @@ def run(ctx):
         # 2. schedules with the allowed states after every step
         hs = generate(ctx, "gen", gen_text, workers=1, simulate=500 if quick else 12000, depth=90, seed=ctx.seed)
         hs_short = generate(ctx, "short", c01.cfg_text("ConnGater_short", DumpEvery=8 if quick else 1), workers=8, seed=ctx.seed)
+        # traffic of both addresses on ONE procedure inside one rate window (up to 4 bursts per tick): a penalty of one peer
+        # must not change the count of another
+        hs_rate = generate(ctx, "gen_rate", c01.cfg_text("ConnGater_gen", MaxPerTick=4, Procs='{"a"}', Penalties="{50}"),
+                           workers=1, simulate=200 if quick else 4000, depth=90, seed=ctx.seed + 5)
+        hs = hs + hs_rate
         if len(hs) < 100 or len(hs_short) < 100:
             raise Inconclusive("too few schedules generated (%d, %d)" % (len(hs), len(hs_short)))
         short_text = c01.cfg_text("ConnGater_short")
